@@ -372,6 +372,12 @@ func genUpstreamResp(t *rapid.T, method string) upstreamResp {
 		val := rapid.SampledFrom([]string{"a=1; Path=/", "b=2; HttpOnly", "v", "text/plain", "no-cache", "\"tag\"", "/elsewhere?x=1", "Basic realm=\"r\"", "Accept", "de, en"}).Draw(t, "rhval")
 		r.header = append(r.header, [2]string{name, val})
 	}
+	if rapid.IntRange(0, 11).Draw(t, "large-response-header-block") == 0 {
+		// a session-heavy application: many large cookies (a header block of 70-300 KB)
+		for i, n := 0, rapid.SampledFrom([]int{70, 120, 300}).Draw(t, "kb-of-cookies"); i < n; i++ {
+			r.header = append(r.header, [2]string{"Set-Cookie", fmt.Sprintf("c%03d=%s; Path=/", i, strings.Repeat("v", 1000))})
+		}
+	}
 	if rapid.IntRange(0, 5).Draw(t, "early-hints") == 0 {
 		r.early = rapid.IntRange(1, 2).Draw(t, "nearly")
 	}
